@@ -124,6 +124,15 @@ def run(ctx, prog):
         ctx.inst('C13.R1', rec.short, 'snapshot load failure is propagated or decided by recovery_mode', not leaks,
                  'failure edge of %s at %s: %s' % (flow.short(c.callee), c.loc, 'reaches %s without asking recovery_mode' % ('the log replay' if leaks and leaks[0] in replay else 'a successful return') if leaks else 'every continuing path crosses a recovery_mode switch'))
 
+    # what the replay may skip is decided by the snapshot that was actually loaded — a fallback snapshot with the MANIFEST's (newer) boundary would skip
+    # the entries between the two snapshots and start with them missing
+    of13 = flow.Origin(rec)
+    sl13 = rec.var_local('snapshot_last_wal_seq')
+    slo13 = flow.render(of13.of_local(sl13[0])) if len(sl13) == 1 else '?'
+    ctx.inst('C13.R1', rec.short, 'the replay skip boundary comes from the loaded snapshot, not from the MANIFEST',
+             bool(re.match(r'^phi\(0 \| Snapshot::load_with_validation\(.*\)@Ok→Ok\.0\.0→Snapshot\.last_wal_seq\)$', slo13)) and 'latest_snapshot_wal_seq' not in slo13,
+             'snapshot_last_wal_seq = %s' % (slo13[:60] + ' … ' + slo13[-60:]))
+
     # ------------------------------------------------------------------ R2
     ctx.rule('C13.R2', 'read_all_strict returns Ok only past corrupted_entries == 0; Snapshot::load returns Ok only past the magic, '
                        'checksum-equal and version-equal edges, and both return the validated data')
